@@ -41,9 +41,12 @@ Lemma umRestoreBlock_clock q m ui h :
   (set_halfMoveClock (fst (umRestoreBlock zk q m ui)) h, snd (umRestoreBlock zk q m ui)).
 Proof.
   unfold umRestoreBlock. cbv zeta. rewrite umRestore1_clock.
-  change (whiteMove (set_halfMoveClock (umRestore1 zk q m ui) h)) with (whiteMove (umRestore1 zk q m ui)).
-  destruct (negb (mpromote m =? EMPTY)); destruct (negb (whiteMove (umRestore1 zk q m ui)));
-    cbn [fst snd]; rewrite ?setPiece_hmc; reflexivity.
+  generalize (umRestore1 zk q m ui). intro R.
+  change (whiteMove (set_halfMoveClock R h)) with (whiteMove R).
+  destruct (negb (mpromote m =? EMPTY)).
+  - rewrite setPiece_hmc. generalize (setPiece zk R (mfrom m) (if whiteMove R then WPAWN else BPAWN)). intro X.
+    destruct (negb (whiteMove R)); reflexivity.
+  - destruct (negb (whiteMove R)); reflexivity.
 Qed.
 
 Lemma umCastleBlock_clock p m pc h :
@@ -51,9 +54,8 @@ Lemma umCastleBlock_clock p m pc h :
 Proof.
   unfold umCastleBlock. cbv zeta.
   change (whiteMove (set_halfMoveClock p h)) with (whiteMove p).
-  destruct (pc =? (if whiteMove p then WKING else BKING)); [|reflexivity].
-  destruct (Z.of_N (mto m) =? sqPlus (mfrom m) 2)%Z; [apply mpnp_hmc|].
-  destruct (Z.of_N (mto m) =? sqPlus (mfrom m) (-2))%Z; [apply mpnp_hmc|reflexivity].
+  repeat match goal with |- context [if ?c then _ else _] => destruct c end;
+    try reflexivity; apply mpnp_hmc.
 Qed.
 
 Lemma umEpBlock_clock p m pc h :
@@ -61,9 +63,8 @@ Lemma umEpBlock_clock p m pc h :
 Proof.
   unfold umEpBlock.
   change (epSquare (set_halfMoveClock p h)) with (epSquare p).
-  destruct (Z.of_N (mto m) =? epSquare p)%Z; [|reflexivity].
-  destruct (pc =? WPAWN); [apply setPiece_hmc|].
-  destruct (pc =? BPAWN); [apply setPiece_hmc|reflexivity].
+  repeat match goal with |- context [if ?c then _ else _] => destruct c end;
+    try reflexivity; apply setPiece_hmc.
 Qed.
 
 Theorem unMakeMove_clock q m ui h :
